@@ -668,6 +668,14 @@ func (g *Gen) entryState(b *ssa.BasicBlock, init *State) (*State, string) {
 	}
 	v, _ := mergeTerm(func(s *State) (string, bool) { return s.alloc, true }, func() string { return "Int" }, "m.alloc")
 	merged.alloc = v
+	for _, i := range incs {
+		for al := range i.st.captured {
+			if merged.captured == nil {
+				merged.captured = map[*ssa.Alloc]bool{}
+			}
+			merged.captured[al] = true
+		}
+	}
 	// defers: must agree
 	for _, i := range incs[1:] {
 		if len(i.st.defers) != len(incs[0].st.defers) {
